@@ -262,7 +262,8 @@ namespace pika::transform_mpi_detail {
                             debug(str<>("transform_mpi_recv"), "set_value_t"));
 
                         dispatch<Ts...>(r);
-                        trigger(r);
+                        // dispatch has already signalled set_error if the MPI call failed
+                        if (r.op_state.status == MPI_SUCCESS) { trigger(r); }
                     },
                     [&](std::exception_ptr ep) {
                         ex::set_error(std::move(r.op_state.r), std::move(ep));
